@@ -10,6 +10,7 @@ import (
 	"crypto/sha256"
 	"encoding/binary"
 	"fmt"
+	"net"
 	"sort"
 	"strings"
 	"testing"
@@ -78,12 +79,12 @@ func genPlan(t *rapid.T) Plan {
 	p.AckLen = rapid.SampledFrom([]int{0, 0, 1, 100, 1000}).Draw(t, "acklen")
 	p.UDPBuf = rapid.SampledFrom([]int{512, 1400, 1400, 9000, 65000}).Draw(t, "udpbuf")
 	p.Sends = rapid.SliceOfN(rapid.Custom(func(t *rapid.T) Send {
-		s := Send{Kind: rapid.SampledFrom([]string{"besteffort", "besteffort", "reliable", "reliable", "gossip", "gossip", "meta"}).Draw(t, "kind"),
+		s := Send{Kind: rapid.SampledFrom([]string{"besteffort", "besteffort", "reliable", "reliable", "gossip", "gossip", "meta", "sendto", "sendtoaddress", "sendtoudp", "sendtotcp"}).Draw(t, "kind"),
 			Pattern: rapid.IntRange(0, 3).Draw(t, "pattern"), First: rapid.SampledFrom([]int{244, 0, 7, 9, 10, 12, 13}).Draw(t, "first")}
 		switch s.Kind {
-		case "besteffort":
+		case "besteffort", "sendto", "sendtoaddress", "sendtoudp":
 			s.Len = rapid.OneOf(rapid.IntRange(0, 40), rapid.IntRange(0, 1350), rapid.SampledFrom([]int{0, 1, 15, 16, 17, 1300, 8000})).Draw(t, "len")
-		case "reliable":
+		case "reliable", "sendtotcp":
 			s.Len = rapid.SampledFrom([]int{0, 1, 15, 16, 17, 31, 32, 33, 1000, 4095, 4096, 4097, 65535, 65536}).Draw(t, "len")
 			if vfx.Thorough() && rapid.IntRange(0, 19).Draw(t, "big") == 0 {
 				s.Len = rapid.SampledFrom([]int{1 << 20, 4<<20 + 1}).Draw(t, "biglen")
@@ -241,9 +242,30 @@ func run(pl Plan) (res vfx.Result) {
 				return fail("SendBestEffort(%d bytes): %v", len(pay), err)
 			}
 			wantMsgs = append(wantMsgs, pay)
-		case "reliable":
-			if err := a.M.SendReliable(toB, pay); err != nil {
-				return fail("SendReliable(%d bytes): %v", len(pay), err)
+		case "sendto", "sendtoaddress", "sendtoudp":
+			// the older entry points of the same two paths
+			var err error
+			switch s.Kind {
+			case "sendto":
+				err = a.M.SendTo(&net.UDPAddr{IP: net.IP(toB.Addr), Port: int(toB.Port)}, pay)
+			case "sendtoaddress":
+				err = a.M.SendToAddress(memberlist.Address{Addr: toB.Address(), Name: toB.Name}, pay)
+			default:
+				err = a.M.SendToUDP(toB, pay)
+			}
+			if err != nil {
+				return fail("%s(%d bytes): %v", s.Kind, len(pay), err)
+			}
+			wantMsgs = append(wantMsgs, pay)
+		case "reliable", "sendtotcp":
+			var err error
+			if s.Kind == "sendtotcp" {
+				err = a.M.SendToTCP(toB, pay)
+			} else {
+				err = a.M.SendReliable(toB, pay)
+			}
+			if err != nil {
+				return fail("%s(%d bytes): %v", s.Kind, len(pay), err)
 			}
 			if len(pay) == 0 {
 				reliableEmpty++ // an empty reliable message may or may not be surfaced
